@@ -7,6 +7,18 @@ hook_shas = [l.split()[0] for l in hooks_commits if l.split(' ',1)[1].startswith
 
 # property id -> (engine, technique, level text, level note, design_ref)
 CHECKS = {
+ 'C04': ('enum', 'bounded-exhaustive enumeration of texts x nesting chains x all ordered pairs of cursors through every offset entry point, against the plain-string slice and the acceptance rule of the statement',
+         'For every text (empty, 1-4 byte codepoints), every chain of parent ranges up to nesting depth 1 (quick) / 3 (thorough) and every ordered pair of cursors of both alignments (in range, at the ends, beyond, positive end-aligned, extreme values): annotate with a TextSelector / relative AnnotationSelector, FindText::textselection and text_by_offset on resources and sub-selections accept exactly when 0 <= begin <= end <= length and then select exactly those codepoints; every reported offset in all four modes is well-formed and re-resolves to the same range.',
+         'Bounded text length (<= 8 codepoints) and nesting depth.', 'DESIGN.md section 4 C04'),
+ 'C07': ('enum', 'bounded-exhaustive enumeration of all texts up to a length over a 7-letter alphabet x all sub-ranges x needles / delimiters / trim sets / regular expressions, against std string functions and the regex crate',
+         'All texts of length <= 4 (quick) / <= 5 (thorough) over 1-4 byte codepoints incl. characters whose lower-casing changes byte length, every sub-selection as scope through three receivers, 59 needles/delimiters, 8 trim sets, sequences, 16 regular expressions alone and in pairs/triples with and without overlap, store-level searches, and segmentation for every set of <= 3/4 known selections: results must equal the plain-string operation at the right absolute offsets, ordered, confined to the scope; partitions must be consecutive and covering.',
+         'Bounded text length and menus; empty needle: termination only; multi-expression non-overlap checked property-wise (tie-breaking unspecified).', 'DESIGN.md section 4 C07'),
+ 'C16': ('enum', 'bounded-exhaustive enumeration of transposition worlds (fragment sets x orders x gaps x 2-3 sides, simple/complex) x every source range / pair of ranges x configurations, against interval arithmetic on the fragment lists',
+         'Every world of 1-3 disjoint fragments over a 5-6 codepoint base text, every listing and positional order, 2 or 3 sides, simple and complex; every source range (and ordered pair) on every side in five source forms and the TransposeConfig switches: on Ok the builders are added, the result lies in the other resource, texts are equal piece by piece, sides have equal text, transposing back returns the original offsets; an uncovered source must be rejected with the store unchanged, a covered one accepted.',
+         'Bounded sizes; sides in distinct resources; zero-width sources: acceptance unspecified.', 'DESIGN.md section 4 C16'),
+ 'C17': ('enum', 'bounded-exhaustive enumeration of annotation shapes x values x identifiers x export configurations (plus every annotation of every history state), each export parsed with serde_json and compared structurally',
+         'Every selector kind and complex combination up to a bound, every DataValue type incl. nested lists, datetimes, non-finite floats and all awkward strings (also IRI-prefixed) as value / annotation id / resource id / dataset id / key id, W3C-namespace keys, and every live annotation of every state of the history exploration, under six export configurations: the output must parse as one JSON object whose targets name the same resources and offsets in order and whose body members have the same content and JSON type.',
+         'Bounded menus; IRI transformation of identifiers with special characters is taken from the public IRI::iri(); generated ids/timestamps switched off.', 'DESIGN.md section 4 C17'),
  'C10': ('hist', 'bounded-exhaustive enumeration (values x operators x keys x sets x removal scenarios; all ordered pairs of insertions) plus explicit-state exploration of histories with a search-vs-scan oracle in every state',
          'Every search entry point (store.find_data, dataset.find_data, key.data().filter_value, test_data, key.data(), data_by_value) is compared with a full scan for every dataset, key (known/unknown/any) and operator of an 81-operator menu on five fixed stores holding 18 values of all seven types (after key/data removals) and in every state of the history exploration; DataValue::test is compared with a transcription of the operator documentation and the Not/And/Or laws; every ordered pair of id-less insertions must share equal values and keep the key unique.',
          'Bounded menus and depth. Cross-type comparisons are undocumented and only checked differentially.', 'DESIGN.md section 4 C10'),
